@@ -695,13 +695,19 @@ class Tr:
             return self.T(rest, env, k, loop)
         if isinstance(st, ast.With):
             return self.T(list(st.body) + rest, env, k, loop)
+        if isinstance(st, ast.FunctionDef) and st.name in self.spec.get("nested_defs", {}):
+            # a closure defined inside the function: not translated, its name stands for the declared token
+            c, ty = self.spec["nested_defs"][st.name]
+            env = dict(env)
+            env[st.name] = parse_type(ty)
+            return [f"let {st.name} := {c}"] + self.T(rest, env, k, loop)
         if isinstance(st, ast.Return) and not isinstance(st.value, ast.IfExp):
             if st.value is None:
                 return [self.result(env, "()")]
             b, c, t = self.E(st.value, env)
             if t != self.ret:
                 if isinstance(self.ret, tuple) and self.ret[0] == "Opt":
-                    c = c if (isinstance(t, tuple) and t[0] == "Opt") else f"some {c}"
+                    c = c if (isinstance(t, tuple) and t[0] == "Opt") else f"(some {c})"
                 elif isinstance(t, tuple) and t[0] == "Opt" and t[1] == self.ret:
                     b, c, t = self.unopt(b, c, t)
                 elif self.ret == "Rat" and t == "Int":
@@ -1613,8 +1619,10 @@ def driver_source(specs, status, src_root):
             first = " ".join(f"(fromJ (argAt args {i}))" for i in range(15))
             if spec["lean"] == "StructuredGrid_compatible_with":
                 cases.append('  | "StructuredGrid_compatible_with" => toJ (Tr.StructuredGrid_compatible_with ' + first + " (fun a b => a == b))")
-            else:
+            elif spec["lean"] == "StructuredGrid___eq__":
                 cases.append('  | "StructuredGrid___eq__" => toJ (Tr.StructuredGrid___eq__ ' + first + " (fun a b => a == b) (fromJ (argAt args 15)))")
+            else:
+                cases.append(f'  | "{spec["lean"]}" => toJ (Tr.{spec["lean"]} (fromJ (argAt args 0)) (fromJ (argAt args 1)))')
             continue
         if spec["lean"] == "connect_components":
             # `comp.connect`: scripted — the world holds, per component, the statuses its further connect calls will report
